@@ -330,7 +330,8 @@ def handle (d : DSt) (n : Nat) (line : String) : IO DSt := do
       -- method calls on a VISIBLE field succeed or fail with the field's run-time type, which the model does not carry
       let how := (kvOf rest "how").getD ""
       let methodOnVisible := !nuv && ["mlen", "midxlen", "mcontains", "mtostr", "mcall"].contains how
-      report d n .field nuv io (some mo) (how != "getobj" && !methodOnVisible)
+      -- the pinned secrets count as hidden whatever the implementation's own flag says (Spec.lean `secretAttrs`)
+      report d n .field (nuv || isSecretAttr ty field) io (some mo) (how != "getobj" && !methodOnVisible)
     | _, _, _, _ => IO.println s!"BADLINE line={n}"; return d
   | _ => IO.println s!"BADLINE line={n}"; return d
 
